@@ -238,7 +238,7 @@ static RunResult run_once(const std::vector<Op> &hist, const Op *op, int K, int 
     g_fault_seen = false;
     apply(w, *op);
     g_final = false;
-    g_fault_seen = op->f > 0 && W().exc && (W().exc_kind == 3 || W().exc_kind == 4);
+    g_fault_seen = op->f > 0 && vf::L().faults_thrown > 0;  // thrown; the callee may have swallowed it (std::vector::shrink_to_fit)
     r.events = g_last_events;
     observe(w, op->f ? "C09" : g_overlimit ? "C08" : tags_for(op->k));
     r.key_after = key_of(w);
